@@ -646,3 +646,8 @@ PROPS["C10"]["explanation"] += (" DM/Props/C10Ascii.lean (helpers DM/Lemmas/C10L
     " (ascii_only_symbol, never_larger_symbol_ab); ascii_bound_false / refuted_cost / refuted_symbol - kernel-checked: with C40 or Text enabled the bound is false on the models (known finding K-D, replayed on the crate).")
 PROPS["C10"]["level_text"] = ("Exploration with a witness-producing oracle whose soundness is a theorem; planner optimality does not hold (known findings K-A, K-B*, K-C*, K-D*); what is proved about the planner model: a plan is always returned when ASCII is enabled, and for mode sets within {ASCII, Base 256}"
     " the chosen symbol is never larger than plain ASCII needs (with the coupling theorem); that the same clause fails with C40 / Text enabled is a kernel-checked counterexample and a known finding.")
+
+PROPS["C02"]["lean"] = list(PROPS["C02"]["lean"]) + ["DM.Props.C02SpecMixedX12"]
+PROPS["C02"]["explanation"] += (" spec_mixed_roundtrip_abx (DM/Props/C02SpecMixedX12.lean, DM/Lemmas/SpecMainX12.lean: step_x12 discharges ModeStep for X12 with all three endings and planned switches): every plan over ASCII, Base 256 and X12 without a latch to a non-ASCII mode"
+    " planned for the last four characters (the side condition is needed: a kernel-checked stale-latch counterexample is in the file), behind no header / FNC1 / Macro: the reference decoder accepts the stream and returns the message.")
+PROPS["C02"]["unproved"] = ["ModeStep for EDIFACT / C40 / Text inside mixed plans against the reference decoder unless listed in the explanation (proved against the crate's decoder model: mixed_roundtrip_E)"]
